@@ -14,6 +14,21 @@ CHECKS = {
         technique="TLA+ spec + TLC exhaustive; spec->code replay of every model transition; TLC trace validation",
         design_ref="5/C34, 4.13",
     ),
+    "C33": dict(
+        category="model_checking",
+        text="MasterWorker.tla models the restart protocol (start, worker phases, death = EOF without "
+             "message, raise = error result, adjust search time, restart or give up, client mapping) and TLC "
+             "checks it exhaustively incl. the liveness property Returns under fairness. Fault plans "
+             "enumerated by TLC are injected into the real run_pynguin_with_master_worker (forked workers die "
+             "by os._exit/SIGKILL or raise at each pipeline phase, repeatedly; virtual and real master clock); "
+             "every run's master/worker events are validated by TLC (MasterWorkerTrace.tla: Returns, "
+             "RestartGuard, StrictDecrease, NoRestartUnlimited, SuccessOnlyIfDelivered).",
+        note="Sampled fault plans (stratified from the model's 15k plans) run for real; death is injected at "
+             "phase boundaries and at the 3rd test execution of the search; a hang is detected by an outer "
+             "watchdog (240 s). Orphaned grandchildren keeping the pipe open are not modelled.",
+        technique="TLA+ spec + TLC (safety+liveness); TLC-generated fault plans replayed on real processes; TLC trace validation",
+        design_ref="4.1, 5/C33",
+    ),
 }
 
 NOT_BUILT_REASON = "not built yet in this round (planned, see DESIGN.md section 5); no claim is made"
